@@ -190,7 +190,7 @@ TOKENIZER = [
         r matches Ok(Token::Semicolon(s, sp)) && sp == Span(start, (start + 1) as usize) && s.spec_bytes() == old(self).text(start as int, start + 1),''',
     ops=[],
   ),
-  F('Tokenizer::number_token',
+  F('Tokenizer::number_token', props=['C01', 'C05', 'C09', 'C10'],
     spec=r'''    requires old(self).in_token(start as int),
     ensures final(self).scan_frame(old(self), start as int),
         r matches Ok(t) ==> t matches Token::Number(d, sp) && sp == Span(start, final(self).off() as usize)
@@ -289,7 +289,7 @@ PARSER = [
         r.0 >= 0 ==> r.1 == rbp(op_text(self.cur())),''',
     ops=[],
   ),
-  F('Parser::parse_token',
+  F('Parser::parse_token', props=['C01', 'C02', 'C05', 'C09'],
     spec=r'''    requires old(self).wf(),
     ensures r is Ok ==> final(self).wf() && final(self).bytes() == old(self).bytes() && final(self).m() < old(self).m(),
         r matches Ok(v) ==> (if old(self).cur() is Operator { final(self).d_prim(old(self), v) } else { final(self).d_atom(old(self), v) }),
@@ -364,7 +364,7 @@ PARSER = [
     decreases old(self).m(), 5int,''',
     ghost_param="Ghost(g0): Ghost<G<'a>>",
     ops=[
-      Ins('loop#0', 'before', "let ghost mut g = g0;"),
+      Ins('loop#0', 'before', "let ghost mut g = g0;\n        proof { lemma_prim_spines(g0); }"),
       Inv('loop#0', """        invariant self.wf(), self.m() <= old(self).m(), self.bytes() == old(self).bytes(), exec_prec >= 0,
             wf(g, self.bytes(), self.cur()), ast_of(g) == lhs, first(g) == first(g0), lspine(g, exec_prec as int), !(g is Cond), !(g is Entry),
             tok_is(self.cur(), "?"@) || rspine(g, la(self.bytes(), self.cur())),
@@ -385,13 +385,14 @@ PARSER = [
       Ins('let:op', 'before', """let ghost t_op = self.cur();
             let ghost nt = if is_not { Some(t_head) } else { None::<Token<'a>> };"""),
       Ins('let:rhs', 'before', "let ghost t1 = self.cur();"),
-      Ins('let:rhs', 'after', "            let ghost mut gr = choose|x: G<'a>| is_prim(x) && first(x) == t1 && wf(x, self.bytes(), self.cur()) && ast_of(x) == rhs;"),
+      Ins('let:rhs', 'after', "            let ghost mut gr = choose|x: G<'a>| is_prim(x) && first(x) == t1 && wf(x, self.bytes(), self.cur()) && ast_of(x) == rhs;\n            proof { lemma_prim_spines(gr); }"),
       GhostArg('call:parse_op', 'Ghost(gr)'),
       Ins('assign:rhs', 'after', """                proof {
                     gr = choose|x: G<'a>| first(x) == first(gr) && wf(x, self.bytes(), self.cur()) && ast_of(x) == rhs
                         && lspine(x, r_bp as int) && (tok_is(self.cur(), "?"@) || (la(self.bytes(), self.cur()) < r_bp && rspine(x, la(self.bytes(), self.cur()))));
                 }"""),
       Ins('loop#0', 'body_end', """proof {
+                assert(tok_is(self.cur(), "?"@) || la(self.bytes(), self.cur()) <= r_bp);   // @C02 gate.sees_through_not
                 lemma_bin_step(g, nt, t_op, gr, self.bytes(), self.cur(), exec_prec as int);
                 g = G::Bin(Box::new(g), nt, t_op, Box::new(gr));
             }"""),
@@ -558,7 +559,7 @@ UNIT = Unit('tp', [
     Src('token.rs', fns=TOKEN, props=['C05', 'C10'],
         regex_rules=[('rule13_string_eq_str', r'(\b\w+\.string\(\)) == (\w+)', r'vx_string_eq_str(&\1, \2)')]),
     Ghost(_t('ghost_tokenizer.rs'), props=['C10'], name='ghost_tokenizer'),
-    Src('tokenizer.rs', fns=TOKENIZER, props=['C01', 'C10'],
+    Src('tokenizer.rs', fns=TOKENIZER, props=['C01', 'C05', 'C10'],
         item_attr={'Tokenizer': '#[verifier::external_derive]'},
         regex_rules=[('rule13_string_eq_str', r'(\b\w+\.string\(\)) == (\w+)', r'vx_string_eq_str(&\1, \2)')]),
     Ghost(_t('ghost_parser.rs'), props=['C02', 'C05'], name='ghost_parser'),
